@@ -414,7 +414,15 @@ impl C02 {
                                         let cap = BigInt::from((2.0 + n * sk / 8.0).min(1e30) as u128);
                                         let rhs_kf = bi(sup0) * (&d1 + 2 + &cap - (&d0 - 2 - &cap));
                                         let lhs_kf = bi(minted) * (&d0 - 2 - &cap);
-                                        let kf = if ((amp as f64) * n < 400.0 || sk >= 1000.0) && sk >= 50.0 && lhs_kf <= rhs_kf { Some("KF-C02-b") } else { None };
+                                        let mut kf = if ((amp as f64) * n < 400.0 || sk >= 1000.0) && sk >= 50.0 && lhs_kf <= rhs_kf { Some("KF-C02-b") } else { None };
+                                        // KF-C02-c: the imbalance fee of an unbalanced deposit is > 100% of each asset's
+                                        // deviation and explodes for an asset that is dust next to the others; it can take
+                                        // such a reserve to zero, and D of a balance set containing a zero comes out too
+                                        // high. Signature: non-zero swap fee, a reserve of at most 100 smallest units in a
+                                        // pool at least 1000:1 off balance, over-mint below twice the rightful amount.
+                                        if kf.is_none() && !p.info.pool_fees.swap_fee.share.is_zero() && sk >= 1000.0 && before.iter().chain(after.iter()).any(|r| *r <= 100) && lhs <= &rhs * 2 {
+                                            kf = Some("KF-C02-c");
+                                        }
                                         rep.failed("ss_mint_bound", kf,
                                             format!("pool {}: minted {minted} LP exceeds supply {sup0} x growth of exact D ({d0} -> {d1}) beyond the 2-unit granularity", t.pool),
                                             witness(json!({"pool": t.pool, "amp": amp, "decimals": decs, "before": jres(&t.before), "after": jres(&t.after), "D0": d0.to_string(), "D1": d1.to_string(), "supply": sup0.to_string(), "minted": minted.to_string()})));
